@@ -180,7 +180,7 @@ Definition load_step (sig p : bytes) (st : gstate) (q : bytes) : gstate :=
 
 Definition node_start (sig p : bytes) (sub_set : list bytes) (sub_nodes : list gnode) (st2 : gstate) : gstate :=
   GState (aset sig (p, sig) (g_nodes st2)) (aset p sig (g_refs st2))
-         (aset sig (set_union sub_set (map snd sub_nodes)) (g_ndeps st2)) (g_deps st2).
+         (aset sig (set_union (set_union sub_set (map snd sub_nodes)) (ndeps_of st2 sig)) (g_ndeps st2)) (g_deps st2).
 
 Definition node_phase (sig p : bytes) (sub_set : list bytes) (sub_nodes : list gnode) (loads : list bytes) (st2 : gstate)
   : gstate :=
